@@ -93,7 +93,9 @@ def ravel_case(draw, mode):
     leaves = [St.leaf(_shape(draw, 1, 4), draw(st.sampled_from(gen.dtypes(mode)))) for _ in range(nl)]
     shapes = [l['shape'] for l in leaves]
     minr = min(len(s) for s in shapes)
-    kind = draw(st.sampled_from(['pos', 'neg', 'mixed', 'default', 'illegal_same', 'illegal_mixed']))
+    kind = draw(st.sampled_from(['pos', 'neg', 'mixed', 'mixed_nf', 'default', 'illegal_same', 'illegal_mixed',
+                                 'illegal_mixed_nf']))
+    maxr = max(len(s) for s in shapes)
     legal = True
     if kind == 'default':
         f, l = 0, -1
@@ -106,6 +108,20 @@ def ravel_case(draw, mode):
     elif kind == 'mixed':
         l = draw(st.integers(-minr, -1))
         f = draw(st.integers(0, minr + l))
+    elif kind == 'mixed_nf':
+        # negative first, non-negative last: legal iff ndim + first <= last on the leaf of LARGEST rank
+        l = draw(st.integers(0, minr - 1))
+        f = draw(st.integers(-minr, min(-1, l - maxr))) if l - maxr >= -minr else None
+        if f is None:
+            f, l = 0, -1
+    elif kind == 'illegal_mixed_nf':
+        legal = False
+        l = draw(st.integers(0, minr - 1))
+        lo = max(-minr, l - maxr + 1)
+        if lo > -1:
+            f, l = 1, 0
+        else:
+            f = draw(st.integers(lo, -1))
     elif kind == 'illegal_same':
         legal = False
         if draw(st.booleans()) and minr >= 2:
@@ -287,6 +303,23 @@ def check(recipe, mode):
         z = must_not_raise('pair-mv', rp.mv, src_x)
         if not St.same_structure(src_S, z) or not np.array_equal(St.flat_of_value(z), St.flat_of_value(src_x)):
             raise Violation('pair-not-identity', f'({name}).reduce() is not the identity map')
+    # a different reshape with the same OUTPUT structure is not an inverse partner
+    if recipe['op'] in ('ravel', 'reshape') and len(ls) == 1 and ls[0][0] != ():
+        from furax import ReshapeOperator
+
+        in_shape, dt = ls[0]
+        out_shape = tuple(want[0].shape)
+        others = [f for f in gen._factorizations(math.prod(in_shape)) if tuple(f) != tuple(in_shape)]
+        if others:
+            f = others[p % len(others)]
+            partner = ReshapeOperator(out_shape, in_structure=St.to_jax(St.leaf(f, dt)))
+            rp = must_not_raise('near-miss-pair-reduce', (T @ partner).reduce)
+            z0 = np.arange(math.prod(f), dtype=float).reshape(f) + 1
+            z = must_not_raise('near-miss-pair-mv', rp.mv, St.build_value(St.leaf(f, dt), [z0]))
+            if tuple(np.shape(z)) != tuple(in_shape) or not np.array_equal(np.asarray(z, dtype=float).reshape(-1), z0.reshape(-1)):
+                raise Violation('pair-rule-unsound', f'(A.T @ B).reduce() for two different reshapes {f}->{out_shape}<-{in_shape} '
+                                                     f'returned shape {np.shape(z)}')
+            classes.append('near_miss_partner')
     nontrivial = len({len(sh) for sh, _ in ls}) >= 2
     if recipe['op'] == 'move':
         sg = [a < 0 for a in list(recipe['src']) + list(recipe['dst'])]
